@@ -160,7 +160,11 @@ CLAIMED["C01"] = dict(
          "any ancestor, compound or parallel) are covered by C01_history_transition_preserves_legality: the combined entry path is a tree below the "
          "domain whose entered set is, below each root, a complete sub-configuration (C01_tree_entry_legal); C01_history_store_invariant keeps the "
          "history store consistent across completed and aborted transitions. The special case without history targets is C01_sync_runs_stay_legal / "
-         "C01_async_runs_stay_legal. "
+         "C01_async_runs_stay_legal. The side conditions are NECESSARY: `initial` naming a history pseudo-state, a history default target that is a "
+         "history pseudo-state or lies outside the parent each make the code at HEAD leave an illegal configuration (kernel-checked witnesses, "
+         "recorded findings F35-F37, found while proving the history case). TIE T: _is_descendant, the string test on ids by which the engine "
+         "decides ancestry, is re-translated from source on every run and proved equal to the model's tree test for machines with distinct "
+         "dotted-path ids (C01_ancestry_oracle_is_the_source; the condition is evaluated in Coq for the machines of this check). "
          "Built from C01_initial_configuration_legal (induction over the default descent), C01_transition_effect (closed formula: configuration "
          "after a transition = before minus the exit list plus the entered set), C01_transition_preserves_legality (a replacement lemma over the "
          "state tree, for compound and parallel domains) and C01_event_preserves_legality (also when a transition aborts: rollback); "
@@ -169,7 +173,7 @@ CLAIMED["C01"] = dict(
          "target is not a proper descendant of its parent is outside the theorems and decided by the correspondence (legality evaluated in Coq at "
          "every hook / subscriber / snapshot point of every generated run: exhaustive small trees x all source/target pairs x both engines x pure "
          "API) - which is how the defect repaired by the latest fix: commit (history child of an active parallel state targeted from inside it) was found.",
-    technique="Coq proof (induction over runs: default descent, transition effect formula, subtree / tree replacement lemmas, history-store invariant) + vm_compute correspondence (K-macro) + monitor",
+    technique="Coq proof (induction over runs: default descent, transition effect formula, subtree / tree replacement lemmas, history-store invariant) + source-translated ancestry oracle (tie T) + vm_compute correspondence (K-macro) + monitor",
     design_ref="DESIGN.md section 5 C01 and section A.3")
 CLAIMED["C03"] = dict(
     category="proof",
@@ -181,8 +185,10 @@ CLAIMED["C03"] = dict(
          "transition are exactly its exit list and its OEnter records exactly the entered set of its entry path(s), in order; "
          "C03_exactly_once_accounting - out of a legal configuration (target neither root nor history) both lists are duplicate-free, only active "
          "states are left, no state is entered while active, and a state is active afterwards iff it (was active and was not left) or was entered, "
-         "i.e. entries minus exits = change in activity. Partial: for history targets the accounting is decided by the monitor and the "
-         "correspondence on exhaustive small trees with actions on every entry and exit (former finding F21 there is repaired in /repo).",
+         "i.e. entries minus exits = change in activity; C03_history_exactly_once_accounting: the same for transitions to history pseudo-states "
+         "(the entered states form a tree below the domain whose entered list is duplicate-free), under the history-store invariant every run "
+         "maintains (former finding F21 there is repaired in /repo). Partial: the theorems are per transition (every transition of every run, by the "
+         "C01 run invariant); timer / service non-interference of sibling regions follows only for what is cancelled.",
     technique="Coq proof (log-segment invariants through entry / exit / actions; sortedness; entered-set characterisation over the state tree) + vm_compute correspondence (K-macro) + monitor",
     design_ref="DESIGN.md section 5 C03")
 CLAIMED["C05"] = dict(
